@@ -86,7 +86,7 @@ pub fn offsets(_args: &[String]) -> Result<Value> {
     let mut failures = vec![];
     let mut checked = 0;
     for &(n, c) in &[(1usize, 0usize), (1, 30), (1, 41), (1, 42), (1, 43), (2, 3), (3, 40), (127, 1), (128, 1), (129, 1), (130, 44)] {
-        for scenario in ["unchanged", "inserted", "gc"] {
+        for scenario in ["unchanged", "inserted", "inserted-blocks", "gc"] {
             checked += 1;
             let wasm = module(n, c);
             let w2 = wasm.clone();
@@ -101,6 +101,16 @@ pub fn offsets(_args: &[String]) -> Result<Value> {
                         let b = f.builder_mut();
                         b.func_body().const_at(0, walrus::ir::Value::I32(77));
                         b.func_body().drop_at(1);
+                    }
+                }
+                if scenario == "inserted-blocks" {
+                    // whole constructs added through the builder: their instructions AND their `end` / `else` have no input location
+                    for (_id, f) in m.funcs.iter_local_mut() {
+                        let b = f.builder_mut();
+                        b.func_body().block_at(0, None, |blk| { blk.i32_const(77).drop(); });
+                        b.func_body().const_at(1, walrus::ir::Value::I32(77));
+                        b.func_body().if_else_at(2, None, |t| { t.i32_const(77).drop(); }, |e| { e.i32_const(77).drop(); });
+                        b.func_body().loop_at(3, None, |l| { l.i32_const(77).drop(); });
                     }
                 }
                 if scenario == "gc" {
@@ -139,7 +149,7 @@ pub fn offsets(_args: &[String]) -> Result<Value> {
                         (_, None) => return Ok(Some(format!("pair ({i}, {o}): no instruction starts at output offset {o}"))),
                     }
                 }
-                if scenario == "inserted" {
+                if scenario.starts_with("inserted") {
                     for (_, o) in &pairs {
                         if out_ops.get(o).map(|s| s.contains("value: 77")).unwrap_or(false) {
                             return Ok(Some(format!("an inserted instruction appears in a pair (output offset {o})")));
